@@ -297,6 +297,16 @@ pub fn model_pool(tier: Tier) -> Vec<(String, Vec<u8>)> {
     for (d, spec) in crate::c06::zero_tag_family().into_iter().step_by(tier.pick(7, 2)) {
         out.push((d, spec.to_bytes()));
     }
+    // boundary values of constants visible in the code: dictionary words around 32767 bytes /
+    // characters (the scorers' documented limit is 32767 CHARACTERS); only the round-trip
+    // experiments are run on these large files (see ops_for)
+    for (name, word) in [("word-10923-kanji(32769 bytes)", "語".repeat(10923)), ("word-32767-ascii", "a".repeat(32767)), ("word-8192-nonbmp(32768 bytes)", "𠀋".repeat(8192))] {
+        let n = word.chars().count();
+        let mut w = vec![0i32; n + 1];
+        w[0] = 5;
+        w[n] = -5;
+        out.push((name.to_string(), ModelSpec { dict_model: vec![WordWeightRecord { word, weights: w, comment: "".into() }], char_window_size: 1, type_window_size: 1, ..Default::default() }.to_bytes()));
+    }
     match std::fs::read("/repo/resources/model.bin") {
         Ok(b) => out.push(("resources/model.bin".into(), b)),
         Err(e) => machinery_error(&format!("/repo/resources/model.bin: {e}")),
@@ -318,6 +328,14 @@ pub fn ops_for(len: usize, tier: Tier) -> Vec<Value> {
     }
     for t in 0..4 {
         ops.push(json!({"op": "tail", "k": t}));
+    }
+    if len > 20_000 {
+        // large files: round trips and tails only, plus a sparse set of truncation points
+        for k in (0..len).step_by(len / 40 + 1) {
+            ops.push(json!({"op": "prefix-slice", "k": k}));
+            ops.push(json!({"op": "prefix-read", "k": k}));
+        }
+        return ops;
     }
     for k in 0..len {
         ops.push(json!({"op": "prefix-slice", "k": k}));
